@@ -387,7 +387,8 @@ class Executor(object):
         if isinstance(v, int):
             return SV('int', z3.IntVal(v))
         if isinstance(v, str):
-            return SV('str', None, v)
+            # the literal as a hashable value too (a label): one constant per distinct text, nothing else assumed
+            return SV('str', z3.Const('strlit!%s' % v[:40], H), v)
         raise Unsupported('constant %r' % (v,))
 
     def ev_Name(self, e, path):
@@ -481,6 +482,8 @@ class Executor(object):
         if b.ty == 'opt':
             # membership in an optional argument that the code has tested
             raise Unsupported('membership in optional value')
+        if a.ty == 'str' and a.t is not None:
+            a = SV('H', a.t)
         if a.ty == 'H':
             if b.ty in ('set', 'list'):
                 return h.set_of(b.t)[a.t]
@@ -777,6 +780,15 @@ class Executor(object):
         else:
             raise Unsupported('yield of %s' % v.ty)
 
+    def st_FunctionDef(self, st, path):
+        # a local function: callable through its own sidecar contract, keyed '<outer>.<locals>.<name>'
+        base = self.k.hints.get('path', self.k.qualname)
+        q = '%s.<locals>.%s' % (base, st.name)
+        if q not in self.E.contracts:
+            raise Unsupported('local function %s has no contract' % q)
+        path.env[st.name] = SV('func', None, ('contract', q))
+        return [('next', None, path)]
+
     def st_Pass(self, st, path):
         return [('next', None, path)]
 
@@ -969,6 +981,9 @@ class Executor(object):
                 if hv.env[n].ty == 'opt':
                     continue
                 hv.env[n] = self.fresh_of(hv.env[n].ty, hv.heap, n)
+            elif n in hv.env and hv.env[n].ty == 'str' and self.k.hints.get('format_is_H'):
+                # a label variable re-assigned in the body (to a formatted string): any hashable value
+                hv.env[n] = SV('H', hp.fresh(n, H))
         lt = self.k.loop_touches.get(ordinal)
         hv.heap = Heap.symbolic('L%d' % ordinal) if lt is None else Heap.partial('L%d' % ordinal, entry_heap, lt)
         hv.pc.append(hv.heap.alloc >= entry_heap.alloc)
